@@ -86,11 +86,10 @@ func (f *FBaseProcessor) Process(iprot, oprot *FProtocol) error {
 
 	logger().Warnf("frugal: client invoked unknown function %s on request with correlation id %s",
 		name, fctx.CorrelationID())
-	if err := iprot.Skip(ctx, thrift.STRUCT); err != nil {
-		return err
-	}
-	if err := iprot.ReadMessageEnd(ctx); err != nil {
-		return err
+	// The arguments are skipped, not used: if they cannot be read to their
+	// end the caller is still owed the answer that the function is unknown.
+	if err := iprot.Skip(ctx, thrift.STRUCT); err == nil {
+		iprot.ReadMessageEnd(ctx)
 	}
 	ex := thrift.NewTApplicationException(APPLICATION_EXCEPTION_UNKNOWN_METHOD, "Unknown function "+name)
 	f.writeMu.Lock()
